@@ -1,11 +1,12 @@
 (* invalmodel: runs M-INVAL, one case per input line, one canonical output line each.
    Input line:   <mode> <variant> | <step>;<step>;... | <records> | <world> | <order>
      mode     run (one schedule; an empty order means the canonical one 0,0,1,1,..) | all (every maximal schedule)
-     variant  code | 11 | 00 | 10 | 01        (own_only, consult)
+     variant  code | three digits 0/1         (own_only, consult, glob_content), e.g. 111 = v_fixed, 000 = v_unfixed
      step     <when>:<deps>:<sdeps>:<ideps>:<ok>:<effs>   when = b|a|n ; lists comma separated ;
+              a dependency number followed by g is a --glob dependency (s_globs) ;
               ok = 0|1 ; effs = d=s/t,...
      records, world   d=s/t,...
-   Output (run):  exec=[..] states=[..] recs=[d=s/t,..] complete=0|1 topo=0|1 p15=0|1 dof=0|1
+   Output (run):  exec=[..] states=[..] recs=[d=s/t,..] complete=0|1 topo=0|1 p15=0|1 dof=0|1 tainted=[..] globtouch=0|1 globfixed=0|1
      exec in execution order; states per step: I C D R Bd Bm Bx P; recs over all dependencies mentioned
    Output (all):  the distinct outcomes (exec printed as a sorted set), sorted, joined by " || " *)
 open Common
@@ -21,18 +22,23 @@ let binding s = match Stdlib.String.split_on_char '=' s with
   | [d; v] -> (n_of_string d, wval v) | _ -> failwith ("binding " ^ s)
 let bindings s = Stdlib.List.map binding (split_on ',' (Stdlib.String.trim s))
 
+let is_glob_tok t = Stdlib.String.length t > 0 && t.[Stdlib.String.length t - 1] = 'g'
+let strip_g t = if is_glob_tok t then Stdlib.String.sub t 0 (Stdlib.String.length t - 1) else t
+
 let parse_step s : stepcfg =
   match Stdlib.String.split_on_char ':' s with
   | [w; deps; sdeps; ideps; ok; effs] ->
+    let toks = split_on ',' deps in
     { s_when = (match w with "b" -> WByDependencies | "a" -> WAlways | "n" -> WNever | _ -> failwith ("when " ^ w));
-      s_deps = ns deps; s_sdeps = nats sdeps; s_ideps = nats ideps; s_ok = (ok = "1"); s_effs = bindings effs }
+      s_deps = Stdlib.List.map (fun t -> n_of_string (strip_g t)) toks;
+      s_globs = Stdlib.List.map (fun t -> n_of_string (strip_g t)) (Stdlib.List.filter is_glob_tok toks);
+      s_sdeps = nats sdeps; s_ideps = nats ideps; s_ok = (ok = "1"); s_effs = bindings effs }
   | _ -> failwith ("step " ^ s)
 
 let parse_variant = function
   | "code" -> v_code
-  | "11" -> v_fixed | "00" -> v_unfixed
-  | "10" -> { v_own_only = true; v_consult = false }
-  | "01" -> { v_own_only = false; v_consult = true }
+  | s when Stdlib.String.length s = 3 && Stdlib.String.for_all (fun ch -> ch = '0' || ch = '1') s ->
+    { v_own_only = (s.[0] = '1'); v_consult = (s.[1] = '1'); v_glob_content = (s.[2] = '1') }
   | s -> failwith ("variant " ^ s)
 
 let show_state = function
@@ -65,9 +71,11 @@ let handle line =
     let cfg = Stdlib.List.map parse_step (split_on ';' steps) in
     let recs = bindings recs and world = bindings world in
     let univ = universe cfg recs world in
-    let tail = " topo=" ^ b01 (topo cfg) ^ " p15=" ^ b01 (coq_Known_P15 cfg recs world)
+    let tail = " topo=" ^ b01 (topo cfg) ^ " p15=" ^ b01 (coq_Known_P15 (msens v cfg) cfg recs world)
                ^ " dof=" ^ b01 (coq_Known_downstream_of_forced cfg)
-               ^ " tainted=" ^ show_list b01 (tainted cfg) in
+               ^ " tainted=" ^ show_list b01 (tainted cfg)
+               ^ " globtouch=" ^ b01 (coq_Known_glob_touch v cfg recs world)
+               ^ " globfixed=" ^ b01 v.v_glob_content in
     (match mode with
      | "run" ->
        let order = if order = "" then canonical_order cfg else nats order in
